@@ -316,7 +316,8 @@ M("X-LITERAL-memo-guarded", "C02", [(S, "        if column_expr.function.is_none
 M("X-WBUF-validates-chunk", "C09", [(WB, "        self.buf.extend_from_slice(buf);\n        Ok(buf.len())", "        if std::str::from_utf8(buf).is_err() {\n            return Err(io::ErrorKind::InvalidInput.into());\n        }\n        self.buf.extend_from_slice(buf);\n        Ok(buf.len())")], ["wbuf_rejects"])
 M("X-WBUF-half-chunk", "C09", [(WB, "        self.buf.extend_from_slice(buf);\n        Ok(buf.len())", "        self.buf.extend_from_slice(buf);\n        Ok(buf.len() / 2)")], ["wbuf_partial"])
 M("X-DATEALIKE-month-exclusive", "C13", [(L, "(1..=12).contains(&month)", "(1..12).contains(&month)")], ["date-alike-ranges"])
-M("X-DATEALIKE-years-wider", "C13", [(L, "(1970..3000).contains(&year)", "(1900..3000).contains(&year)")], kind="variant")
+# (was a variant until seed C15-k showed what a wider range costs: `1950-size` stops being a subtraction)
+M("X-DATEALIKE-years-wider", "C13", [(L, "(1970..3000).contains(&year)", "(1900..3000).contains(&year)")], ["number-minus"])
 M("C03-R2-descend-filtered", "C03", [(P, "        if let Some(right) = &expr.right {\n            result.right = Some(Box::from(Self::negate_expr_op(right)));", "        if let Some(right) = expr.right.as_ref().filter(|e| e.op.is_some()) {\n            result.right = Some(Box::from(Self::negate_expr_op(right)));")], ["descend-right"])
 M("C03-V-descend-match", "C03", [(P, "        if let Some(left) = &expr.left {\n            result.left = Some(Box::from(Self::negate_expr_op(left)));\n        }", "        match &expr.left {\n            Some(left) => {\n                result.left = Some(Box::from(Self::negate_expr_op(left)));\n            }\n            None => {}\n        }")], kind="variant")
 M("C03-V-descend-map", "C03", [(P, "        if let Some(left) = &expr.left {\n            result.left = Some(Box::from(Self::negate_expr_op(left)));\n        }", "        result.left = expr.left.as_ref().map(|left| Box::from(Self::negate_expr_op(left)));")], kind="variant")
